@@ -50,6 +50,11 @@ pub fn gen_plan(prop: &str, seed: u64, run: u64, tier: Tier) -> Plan {
             }
         }
     }
+    // buggify: in a third of the runs with v3 nodes the derived AES-CTR counter block sits just below a
+    // carry (on every node alike), so sibling deliveries cross a counter wrap inside the message
+    if nodes.iter().any(|n| n.family() == 3) && b.rng.chance(1, 3) {
+        b.plan.iv = Some(crate::plan::IvSpec { site: "v3.local".into(), hex: b.rng.pick(&super::c03::CARRY_BLOCKS).to_string() });
+    }
     let n_seals = 4 + b.rng.usize_below(if thorough { 21 } else { 13 });
     for _ in 0..n_seals {
         let fk = *b.rng.pick(&fams);
